@@ -720,8 +720,9 @@ def gen_clone_trace(tier, idx):
     """suite `clone` (C20): a wrapper trace with 1-2 dill round-trips inserted at random points"""
     r = rng('clone', tier, idx)
     cfg = gen_cfg(r, tier, idx)
-    if cfg['backend'] in ('sql', 'bare_sql', 'sqlmem'):
-        cfg['backend'] = r.choice(['file', 'dir', 'bare_file', 'bare_dir'])   # sqlite connections cannot be pickled
+    if cfg['backend'] in ('sql', 'bare_sql', 'sqlmem') and idx % 3:
+        cfg['backend'] = r.choice(['file', 'dir', 'bare_file', 'bare_dir'])   # sqlite connections cannot be pickled ...
+    # (... every third of them stays: as long as such a function cannot be pickled it is outside the property; the day it can, it is inside)
     cfg['clone'] = True
     cfg['variant'] = r.randrange(12)
     if cfg['backend'] in ('dir', 'bare_dir') and ARCHIVE_OPTIONS['dir'][cfg['variant'] % 6].get('serialized') is False:
